@@ -22,7 +22,14 @@ IDLS = {
     'duplicate': 'foo = enum { a; }\nfoo = enum { b; }\n',
     'keyword': 'rec = record { x: i32; }\nclass = enum { a; }\n',
     'static_noncpp': 'itf = interface +java { static m(); }\n',
+    # @extern files: well-formed but not matching the schema, not well-formed YAML (error in the first / in a later document), missing
+    'extern_schema': '@extern "ext_schema.yaml"\nfoo = enum { a; }\n',
+    'extern_bad_yaml': '@extern "ext_bad.yaml"\nfoo = enum { a; }\n',
+    'extern_bad_yaml2': '@extern "ext_bad2.yaml"\nfoo = enum { a; }\n',
+    'extern_missing': '@extern "ext_nowhere.yaml"\nfoo = enum { a; }\n',
 }
+EXTERN_FILES = {'ext_schema.yaml': 'name: 7\nbogus: true\n', 'ext_bad.yaml': 'name: [unclosed\n',
+                'ext_bad2.yaml': '---\n---\nname: x\n  bad: : indentation\n   - [\n'}
 
 
 def scenario(r):
@@ -31,6 +38,8 @@ def scenario(r):
     idl = 'in.pydjinni'
     if idl_kind != 'missing_idl':
         files[idl] = IDLS[idl_kind]
+    if idl_kind.startswith('extern_'):
+        files.update(EXTERN_FILES)
     cfg_kind = r.choice(['default'] * 6 + ['named'] * 2 + ['none_opts'] * 3 + ['missing', 'invalid_yaml', 'bad_key', 'bad_ext', 'bad_list_elem', 'bad_nested'])
     config, opts = None, []
     if cfg_kind == 'default':
